@@ -158,6 +158,14 @@ func Assume(c bool) {
 	}
 }
 
+// AssumeEq assumes a == b: exact under the solver; natively (where model
+// values of real-mode runs are rounded to float64) up to a relative 1e-6.
+func AssumeEq(a, b float64) {
+	if !(math.Abs(a-b) <= 1e-6*(1+math.Abs(a)+math.Abs(b))) {
+		panic(abort{"assume-false"})
+	}
+}
+
 // Assert is the property; natively a false assertion fails the replay.
 func Assert(c bool, label string) {
 	if !c {
